@@ -71,6 +71,9 @@ func (e *FuncEnc) checkEnsures(ret *ssa.Return) {
 	}
 	if c.RetHook != nil {
 		for _, nf := range c.RetHook(e, e.results) {
+			if nf.Formula == "true" {
+				continue // holds syntactically at this return site
+			}
 			e.obligeNamed(nf.Name, fmt.Sprintf("ret%d", e.retCount), nf.Formula, ret.Pos())
 			e.Obls[len(e.Obls)-1].Props = nf.Props
 		}
